@@ -67,6 +67,14 @@ var corpus = [][]string{
 	// stopped context and the flag are both set already, Start does nothing, Run waits for the gated worker
 	{"bw 1 5 g", "bw 2 0 c", "start", "waitstarted 1", "go sdw", "waitseen 1", "ctxflag", "bw 3 0 c", "bw 4 9 c", "start", "go run", "sleep 10",
 		"workers", "kick 1", "join", "ctxflag"},
+	// forced window from inside a handler: the nested registration of worker 1's handler is parked between its stopped
+	// check and the lock, released while the shutdown waits for the gated order-9 worker: refused under the lock
+	{"bw 1 5 p@0", "bw 2 9 g", "start", "waitparked", "waitstarted 2", "go sdw", "waitseen 2", "release", "waitpark", "sleep 10", "ctxflag", "kick 2", "join", "workers"},
+	// ... released after the complete shutdown of the other workers cannot happen (worker 1 is itself waited for): released
+	// right after the stopped flag is set, before anything is cancelled (the shutdown is blocked on the gated worker)
+	{"bw 1 -3 p@9", "bw 2 5 g", "bw 3 5 h", "start", "waitparked", "waitstarted 2", "sd", "waitseen 2", "release", "waitpark", "bw 4 0 c", "kick 2", "go sdw", "join"},
+	// Run vs a late worker registered from inside a handler after Run's Start: Run has to wait for it too
+	{"bw 1 0 a@-1", "go run", "waitstarted 1", "waitstarted 21", "kick 1", "sleep 30", "workers", "kick 21", "sleep 5", "sd", "join"},
 	// a handler that shuts the daemon down from inside; an equal-order peer holds until both are cancelled
 	{"bw 1 5 k", "bw 2 0 s", "bw 3 5 h", "start", "waitstarted 1", "waitstarted 3", "kick 1", "waitseen 2", "go sdw", "join", "ctxflag"},
 	// workers that return on ContextStopped() instead of their own context: they leave long before their order's turn
